@@ -8,6 +8,7 @@ struct MEntry
     int nstates;     // 1 (AVX2) or 2 (AVX-512, interleaved)
     MKind kind;
     int small8;      // 1: coefficients must be "8-bit" (scaled: < B_w)
+    int alias;       // 1: the result register is the same object as one of the state registers (only the cheap parts are run)
     // state: nstates*12 values (state-major), coef: 12 / 12 / 48 / 144 values
     // out: SPMV nstates*4, DOT nstates, MMULT4x12 nstates*4, MMULT nstates*12
     void (*fn)(const uint64_t *state, const uint64_t *coef, uint64_t *out);
